@@ -1969,6 +1969,13 @@ STORE_NFTT = {"NftT": {"Approval": (["u32"], "ApprovalData", "temp"), "ApprovalF
 READS_NFTT = {"NftT": {"ledger_sequence": "u32", "min_temp_ttl": "u32", "max_ttl": "u32", "authorized": "addr2bool"}}
 FILES_NFTT = [("NftT", "packages/tokens/src/non_fungible/storage.rs",
                ["get_approved", "is_approved_for_all", "approve_for_all", "approve_for_owner", "check_spender_approval"])]
+STORE_FF = {"FungibleF": {"Balance": (["Address"], "i128"), "TotalSupply": ([], "i128"),
+                            "Allowance": (["AllowanceKey"], "AllowanceData", "temp")}}
+READS_FF = {"FungibleF": {"ledger_sequence": "u32", "min_temp_ttl": "u32", "max_ttl": "u32", "authorized": "addr2bool"}}
+FILES_FF = [("FungibleF", "packages/tokens/src/fungible/storage.rs",
+             ["total_supply", "balance", "allowance_data", "allowance", "set_allowance", "spend_allowance", "update",
+              "approve", "transfer", "transfer_from", "mint"]),
+            ("FungibleF", "packages/tokens/src/fungible/extensions/burnable/storage.rs", ["burn", "burn_from"])]
 STORE_FT = {"FungibleT": {"Allowance": (["AllowanceKey"], "AllowanceData", "temp")}}
 READS_FT = {"FungibleT": {"ledger_sequence": "u32", "min_temp_ttl": "u32", "max_ttl": "u32"}}
 FILES_FT = [("FungibleT", "packages/tokens/src/fungible/storage.rs", ["allowance_data", "allowance", "set_allowance", "spend_allowance"])]
@@ -2523,6 +2530,10 @@ def main():
         elif "--nft-ttl" in sys.argv:
             txt = translate(repo, FILES_NFTT, imports=("OZ.Model.RustSemHost",), reads=READS_NFTT, structs=STRUCTS_NFT, store=STORE_NFTT,
                             impl_types={"Base": "NftT"}, rename_types={"ApprovalData": "NftT.ApprovalData"})
+        elif "--fungible-full" in sys.argv:
+            txt = translate(repo, FILES_FF, imports=("OZ.Model.RustSemHost",), reads=READS_FF, structs=STRUCTS_FUNGIBLE, store=STORE_FF,
+                            impl_types={"Base": "FungibleF"},
+                            rename_types={"AllowanceData": "FungibleF.AllowanceData", "AllowanceKey": "FungibleF.AllowanceKey"})
         elif "--fungible-ttl" in sys.argv:
             txt = translate(repo, FILES_FT, imports=("OZ.Model.RustSemHost",), reads=READS_FT, structs=STRUCTS_FUNGIBLE, store=STORE_FT,
                             impl_types={"Base": "FungibleT"},
@@ -2569,6 +2580,11 @@ def main():
         elif "--vault" in sys.argv:
             txt = translate(repo, FILES_VAULT, DEPS=FILES, imports=("OZ.Gen.Math",), reads=READS_VAULT)
         else:
+            known = {"--webauthn", "--repo", "--out", "--write"}
+            for a_ in sys.argv[1:]:
+                if a_.startswith("--") and a_ not in known:
+                    print(f"rs2lean: unknown mode {a_}", file=sys.stderr)
+                    sys.exit(2)
             txt = translate(repo, FILES_WEBAUTHN if "--webauthn" in sys.argv else FILES)
     except Unsupported as ex:
         print(f"rs2lean: unsupported: {ex}", file=sys.stderr)
